@@ -123,7 +123,7 @@ func init() {
 			"directed prefix: fault kind x position x n x placement x issuer configured or not; distinct = shape hash (fault, position, n, placement, issuer-configured, layout, outcome class)",
 		Directed:   c03Directed,
 		Run:        c03Run,
-		MustHit:    []string{"nonconforming_idp", "misroute", "delay_past_expiry", "position>0", "place=R", "place=A", "place=RA", "place=none", "issuer_unconfigured", "redelivery_after_change", "encrypted_only_with_checking_off", "assertions_encrypted", "validate_called_directly"},
+		MustHit:    []string{"nonconforming_idp", "misroute", "delay_past_expiry", "position>0", "place=R", "place=A", "place=RA", "place=none", "issuer_unconfigured", "redelivery_after_change", "encrypted_only_with_checking_off", "assertions_encrypted", "validate_called_directly", "assertion_without_authn_statement"},
 		RandomRuns: map[string]int{"quick": 8000, "thorough": 60000},
 		Assumptions: []string{"error identity is compared by Go type and by the SAML element/attribute name it carries, never by message text",
 			"a fault is injected alone; with several simultaneous violations any of the corresponding errors is allowed"},
@@ -248,6 +248,16 @@ func c03Run(r *core.Run) {
 		a.SCNotOnOrAfter = strp(c05BadBounds[1+t.Int(len(c05BadBounds)-1, "c03.malformed")])
 	case "a-nooa-expired":
 		a.SCNotOnOrAfter = strp(world.RenderInstant(now.Add(-time.Duration(1+t.Int(1000, "c03.expired"))*time.Second).Truncate(time.Second), world.InstantForm{}))
+	}
+	// assertions without an AuthnStatement (attribute-only assertions are legal; the profile checks apply
+	// to them all the same): 1 the assertion at the drawn position, 2 all, 3 all others
+	if na := t.Int(6, "c03.noauthn"); na >= 1 && na <= 3 {
+		for i, x := range m.Assertions {
+			if (na == 1 && i == pos) || na == 2 || (na == 3 && i != pos) {
+				x.Authn = nil
+			}
+		}
+		r.Probe("assertion_without_authn_statement")
 	}
 	if fault != "none" && fault != "misroute-other-sp" && fault != "delay-past-expiry" {
 		r.Fault("nonconforming_idp")
